@@ -113,20 +113,22 @@ def check_reuse(o, clause, f, x, tol, sub="", mutate=flip_all):
 
     calls = 0
     try:
+        # the history first, uninterrupted (a reference call in between would itself be part of the history) ...
         f(a)
-        calls += 1
         same = bool(numpy.array_equal(a, keep, equal_nan=True)) if a.dtype.kind in "fc" else bool(numpy.array_equal(a, keep))
-        o.check(clause + "_argument_unchanged", same, sub=sub,
-                detail=None if same else "max change %g" % float(numpy.max(numpy.abs(a.astype(complex) - keep.astype(complex)))))
+        change = None if same else float(numpy.max(numpy.abs(a.astype(complex) - keep.astype(complex))))
+        before = a.copy()
         r2 = _flat(f(a))
-        want = _flat(f(a.copy()))
-        calls += 2
-        o.close(clause + "_repeat_on_same_array", rel(r2, want), tol, sub=sub)
         mutate(a)
+        after = a.copy()
         r3 = _flat(f(a))
-        want = _flat(f(a.copy()))
-        calls += 2
-        o.close(clause + "_after_caller_edit", rel(r3, want), tol, sub=sub)
+        # ... then what pristine copies of the values held at each point give
+        want2 = _flat(f(before))
+        want3 = _flat(f(after))
+        calls += 5
+        o.check(clause + "_argument_unchanged", same, sub=sub, detail=None if same else "max change %g" % change)
+        o.close(clause + "_repeat_on_same_array", rel(r2, want2), tol, sub=sub)
+        o.close(clause + "_after_caller_edit", rel(r3, want3), tol, sub=sub)
     except Exception as e:          # the unchanged library does not raise on these inputs (they are inputs of the check)
         o.check(clause + "_repeat_on_same_array", False, sub=sub, detail="%s: %s" % (type(e).__name__, str(e)[:200]))
     return calls
